@@ -138,6 +138,62 @@ def descent_rule(F, R):
                % (fn.short(), ", ".join(missing)), fn.loc(), sample={"descends": sorted(desc)})
 
 
+def binder_kind_rule(F, R):
+    R.rule("C13.b", "one notion of pattern variable: a MacroPattern variant whose payload names a binding — the key of a "
+                    "bindings.insert in collect_bindings comes from that variant's identifier — is (1) declared as a pattern "
+                    "variable when the pattern is parsed (every construction of the variant in MacroPattern::parse_from_list "
+                    "is preceded, within the same turn of the pattern loop, by an insert into PatternContext.bindings, the table the template is verified and renamed "
+                    "against) and (2) mangled with the template (MacroPattern::mangle rewrites the variant). The template's "
+                    "references are renamed to `##x` exactly for the declared variables, and an undeclared one is treated as a "
+                    "free identifier of the template: renamed when the use site binds that spelling, after which no binding "
+                    "matches it")
+    cb = F.one(r"^steel::parser::expander::collect_bindings$")
+    variants = set(e[1].split("::")[1] for _, _, e in cb.events("fld") if e[1].startswith("MacroPattern::"))
+    leaf = {}
+    for i, b in cb.calls():
+        if not re.search(r"\{impl HashMap<K,V,S,A>\}::insert$", b["callee"]) or len(b["args"]) < 2:
+            continue
+        for t in lib.TOK.findall(b["args"][1]):
+            for src in lib.alias_sources(cb, t, depth=8) | {t}:
+                m = re.search(r" as (\w+)\.0$", src)
+                if m and m.group(1) in variants:
+                    leaf.setdefault(m.group(1), b.get("line"))
+    R.floor("C13.b", "pattern variants that name a binding", len(leaf), 1)
+    mg = F.one(r"\{impl MacroPattern\}::mangle$")
+    mangled = set(e[2] for _, _, e in mg.events("agg") if e[1] == "MacroPattern")
+    pl = F.one(r"\{impl MacroPattern\}::parse_from_list$")
+    dom = pl.dominators()
+    decl = []
+    for i, b in pl.calls():
+        if re.search(r"\{impl HashMap<K,V,S,A>\}::insert$", b["callee"]) and b["args"]:
+            srcs = set()
+            for t in lib.TOK.findall(b["args"][0]):
+                srcs |= lib.alias_sources(pl, t, depth=8)
+            if any(re.search(r"\.bindings\b", x) for x in srcs):
+                decl.append(i)
+    if not decl:
+        raise CheckError("anchor lost: parse_from_list no longer inserts into PatternContext.bindings")
+    for v, line in sorted(leaf.items()):
+        R.inst("C13.b", "MacroPattern::%s names a binding: mangled with the template" % v, v in mangled,
+               "collect_bindings binds the identifier of MacroPattern::%s (line %s) but MacroPattern::mangle does not rewrite "
+               "that variant: the pattern keeps the plain spelling while the template's references are renamed (or, if the "
+               "variable is not declared either, are treated as free identifiers and renamed only when the use site happens to "
+               "bind the same spelling — after which nothing is substituted for them)" % (v, line), mg.loc(), sample=True)
+        sites = [(i, e) for i, _, e in pl.events("agg") if e[1] == "MacroPattern" and e[2] == v]
+        if not sites:
+            raise CheckError("anchor lost: parse_from_list never builds MacroPattern::%s" % v)
+        heads = set(t for u in pl.normal_blocks() for t in pl.succ(u) if t in dom.get(u, ()))
+        for k, (i, e) in enumerate(sites):
+            # the declaration is conditional (`_` is not a variable), so it does not dominate: it has to lie on a path to
+            # the construction within the same turn of the pattern loop
+            ok = any(d in dom.get(i, ()) or i in pl.reachable_from([d], avoid=heads) for d in decl)
+            R.inst("C13.b", "parse_from_list / MacroPattern::%s #%d is declared as a pattern variable" % (v, k), ok,
+                   "MacroPattern::parse_from_list builds MacroPattern::%s (line %s) without registering its identifier in "
+                   "PatternContext.bindings: the template is verified and renamed as if it were not a pattern variable, so "
+                   "`(let ((x ..)) <use>)` with the same spelling at the use site turns the template's reference into `##x`, "
+                   "which no binding matches" % (v, e[3]), pl.loc(e[3]), sample=True)
+
+
 def binder_sites_rule(F, R):
     R.rule("C13.g", "every binder a template introduces gets the whole treatment (sibling agreement over the binder sites of "
                     "RenameIdentifiersVisitor: define, lambda parameters, let and named-let bindings): the site that stores "
@@ -356,6 +412,7 @@ def template_walk_rule(F, R):
 def run(F, R, ctx):
     alignment_rule(F, R)
     descent_rule(F, R)
+    binder_kind_rule(F, R)
     binder_sites_rule(F, R)
     case_rule(F, R)
     expansion_rule(F, R)
